@@ -833,7 +833,7 @@ def run(ctx):
         ctx.tlc_stats(r1, "Trace_HttpSrv/witnesses-against-%d-variants" % len(family()))
         present, absent, problems = decide_tree(ctx, wruns, by)
         if problems:   # repeat before reporting any rejection
-            again = [run_scenario(exe, d, r["name"], r["text"], ".2") for r, _ in problems]
+            again = list(ex.map(lambda r: run_scenario(exe, d, r["name"], r["text"], ".2"), [r for r, _ in problems]))
             by2, r1b = tlc_validate(again, d, "witness2", family(), workers=2)
             ctx.tlc_stats(r1b, "Trace_HttpSrv/witnesses-repeated")
             for k, rn in enumerate(again, 1):
@@ -855,7 +855,13 @@ def run(ctx):
         ctx.tlc_stats(r3, "Trace_HttpSrv/all-scenarios-against-the-tree-variant")
         bad = [(k, rn) for k, rn in enumerate(allruns, 1) if by3[k][0]["verdict"] != "ACCEPT"]
         if bad:   # repeat before reporting any rejection
-            again = [run_scenario(exe, d, rn["name"], rn["text"], ".2") for _, rn in bad]
+            # scenarios that ended in the driver's watchdog (event "hang") all carry the same key: four of them are repeated, the
+            # others would only cost the watchdog period again - the check ends with its verdict in bounded time
+            hung = [x for x in bad if any(e.get("e") == "hang" for e in x[1]["evs"])]
+            if len(hung) > 4:
+                drop = set(id(x[1]) for x in hung[4:]); bad = [x for x in bad if id(x[1]) not in drop]
+                ctx.add(hung_scenarios_not_repeated=len(drop))
+            again = list(ex.map(lambda rn: run_scenario(exe, d, rn["name"], rn["text"], ".2"), [rn for _, rn in bad]))
             by4, r4 = tlc_validate(again, d, "again", [tree], workers=2)
             ctx.tlc_stats(r4, "Trace_HttpSrv/rejected-scenarios-repeated")
             seen = {}
